@@ -111,6 +111,8 @@ def gen_params(rng, cls, shape, N, pid, faults):
         r = rng.random()
         if r < 0.55:
             p["initialize"] = rng.randrange(n_from)
+            if rng.random() < 0.1 and pid != "C06":
+                p["initialize"] = {"$npint": p["initialize"], "dtype": "int64"}
         elif r < 0.75:
             p["initialize"] = "random"
             p["random_state"] = rng.randrange(100)
@@ -199,7 +201,7 @@ def gen_c01(rng, idx, tier, faults):
         for _ in range(rng.choice([0, 0, 1, 1, 2, 3])):
             r = rng.random()
             if r < 0.12:
-                seq.append({"op": "RESTART", "obj": name})
+                seq.append({"op": "RESTART", "obj": name, "mode": rng.choice(["pickle", "deepcopy"])})
             if r > 0.8:
                 # cold refit of the same object, possibly re-parameterised (fewer selections,
                 # another starting point): "cold or warm-started" histories
@@ -286,6 +288,7 @@ def gen_c06(rng, idx, tier, faults):
     forms = [p["n_to_select"]] + [n_form(rng, n, n_from) for n in sched[1:]]
     refit_init = rng.randrange(n_from) if (refit and rng.random() < 0.6) else None
     refit_X = rng.choice(["X0", "X1"]) if refit_init is not None else "X1"
+    restart_mode = rng.choice(["pickle", "deepcopy"])
     read_after = rng.randrange(len(sched)) if rng.random() < 0.3 else None
     read_m = rng.choice([("get_support", {}), ("get_support", {"indices": True}), ("get_distance", {}), ("get_select_distance", {}), ("score", {})])
     # buffer reuse: a single object fits X0, the caller overwrites X0 in place, cold refit on X0
@@ -299,7 +302,7 @@ def gen_c06(rng, idx, tier, faults):
             if si > 0:
                 ops.append({"op": "SET", "obj": name, "params": {"n_to_select": forms[si]}})
                 if restart_at == si:
-                    ops.append({"op": "RESTART", "obj": name})
+                    ops.append({"op": "RESTART", "obj": name, "mode": restart_mode})
             ops.append({"op": "FIT", "obj": name, "X": "X0", "y": yn, "warm": si > 0, "env": {"clock": clk}})
             if read_after == si:
                 ops.append({"op": "READ", "obj": name, "method": read_m[0], "kwargs": read_m[1]})
@@ -351,7 +354,7 @@ def _c08_object(rng, o, heap, faults, exhaustive=None):
     limit = max(2, min(limit, 12))
     if isinstance(p.get("initialize"), list):
         p["initialize"] = p["initialize"][:1]
-    elif isinstance(p.get("initialize"), dict):
+    elif isinstance(p.get("initialize"), dict) and "$ndarray" in p["initialize"]:
         p["initialize"] = {"$ndarray": p["initialize"]["$ndarray"][:1]}
     return cls, info, fam, xs, xn, yn, n_from, p, limit
 
@@ -396,7 +399,7 @@ def gen_c08(rng, idx, tier, faults):
                 seq.append({"op": "SET", "obj": name, "params": {"n_to_select": n_form(rng, s, n_from)}})
                 r = rng.random()
                 if r < 0.15:
-                    seq.append({"op": "RESTART", "obj": name})
+                    seq.append({"op": "RESTART", "obj": name, "mode": rng.choice(["pickle", "deepcopy"])})
                 elif r < 0.35 and "score_threshold" not in q:
                     t = rng.choice(["absolute", "relative"])
                     seq.append(
@@ -411,7 +414,12 @@ def gen_c08(rng, idx, tier, faults):
                     )
                 elif r < 0.42 and "score_threshold" not in q:
                     seq.append({"op": "SET", "obj": name, "params": {"score_threshold": None}})
-            seq.append({"op": "FIT", "obj": name, "X": xn, "y": yn, "warm": si > 0, "env": mk_env()})
+            xuse = xn
+            if si > 0 and rng.random() < 0.15:
+                xuse = xn + "c"
+                heap[xuse] = dict(heap[xn])  # same recipe: equal values, another array object
+                heap[xuse]["storage"] = rng.choice(["C", "F", "view"])
+            seq.append({"op": "FIT", "obj": name, "X": xuse, "y": yn, "warm": si > 0, "env": mk_env()})
             if rng.random() < 0.3:
                 seq.append(gen_read(rng, name, cls))
         if fam == "fps" and rng.random() < 0.35:
